@@ -41,7 +41,7 @@ func lbl(label string) string {
 	return label + ":\n"
 }
 
-func ctrlTemplates(thorough bool) []ctrlTmpl {
+func ctrlTemplates() []ctrlTmpl {
 	var ts []ctrlTmpl
 	conds := []string{"a < b", "a%2 == 0", "b%3 == 1"}
 	for _, c := range conds {
@@ -176,10 +176,6 @@ func ctrlTemplates(thorough bool) []ctrlTmpl {
 	ts = append(ts, ctrlTmpl{fam: "range-slice-len-once", variant: "length evaluated once, elements live", isLoop: true, nh: 1, leafOnly: true, gen: func(lv int, label string, h []string) string {
 		return fmt.Sprintf("s%[1]d := make([]int32, 2, 8)\ns%[1]d[0], s%[1]d[1] = 1, 2\n%[3]sfor i%[1]d, v%[1]d := range s%[1]d {\ns%[1]d = append(s%[1]d, 7)\ns%[1]d[1] = 5\na += v%[1]d + int32(i%[1]d)\n%[2]s}\na += int32(len(s%[1]d))\n", lv, h[0], lbl(label))
 	}})
-	if !thorough {
-		// quick: one bound per loop form below the top level is enough to exercise the nesting; the
-		// full bound set stays at depth 1 (see FamCtrl)
-	}
 	return ts
 }
 
@@ -252,7 +248,7 @@ func ctrlWrap(body string) string {
 // and loop bound 3 only (the inner one takes all variants); thorough: all variants at both levels.
 func FamCtrl(thorough bool) Family {
 	f := Family{Name: "ctrl"}
-	ts := ctrlTemplates(thorough)
+	ts := ctrlTemplates()
 	var items []Item
 
 	fill := func(g *ctrlGen, t *ctrlTmpl, lv int, label string, hole int, content string) string {
